@@ -66,6 +66,33 @@ CHECKS = {
     note=NOTE_COMMON + 'Partial w.r.t. the runtime: thread scheduling and HashMap seeds are sampled. Hook: cli/src/parse.rs TYPESHARE_VERIF_ORDER. The genuine defect found (consts never sorted) was repaired by the fix: commit recorded in KNOWN_FINDINGS.jsonl; the model follows the repaired code.',
     technique='Rocq proof (permutation invariance of fold + stable sort, all arrival orders) + exhaustive arrival-order runs of the real binary via hook + repeated-process sampling',
     design='§11 C06'),
+ 'C20': dict(
+    text='Machine-checked theorems (Props/C20.v, closed under the global context): for EVERY file system, current directory and command line the '
+         'generating run of the CLI model (load_config with find_configuration_file, override_configuration, language()) equals a specification '
+         'built from effective(cli, file, default): the configuration file is the one named by -c, else the typeshare.toml of the nearest ancestor '
+         'directory, else none; swift-prefix, kotlin-prefix, java-package, both module names, scala-package and go-package reach the back-end '
+         'record as command line, else file, else default (one theorem per setting); type_mappings, default_decorators, generic constraints, '
+         'codablevoid_constraints, uppercase_acronyms and no_pointer_slice pass through unchanged and reach the back end as the file has them; the '
+         'only refusal is Go without a package; target_os comes from the command line only. -g: the run equals its specification, store_config '
+         'fails exactly when the target exists and then leaves the file system unchanged, touches no other path; under the explicit hypothesis '
+         'toml_roundtrip a stored configuration loads back identically on all persisted fields (target_os is #[serde(skip)] and stated as not '
+         'persisted), through -c and through discovery, and a later run naming the same location gets the back end of the command line that wrote '
+         'the file. Discovery: -c wins (only the named file matters), nearest ancestor, none iff no ancestor has the file, and the '
+         'push / is_file / pop-twice loop terminates within depth+1 iterations and equals the structural walk. Tied to the code through the REAL '
+         'BINARY: all 1024 joint {absent, present} combinations over the five main settings x 4 languages, random file-only tables x 6 languages, '
+         'discovery scenarios (depth 0-3, directory named typeshare.toml, unparsable nearest file, missing -c file), and -g runs whose emitted TOML '
+         'is parsed with tomllib, re-run (must fail, bytes identical), reloaded and compared with the direct run.',
+    note=NOTE_COMMON + 'toml and clap are NOT modelled: the serialiser/parser are universally quantified functions and the round trip is the explicit hypothesis '
+         'toml_roundtrip of the three round-trip theorems (forall c, de (ser c) = Some (persisted c)); it is shown satisfiable (Example C20_nonvacuous) and '
+         'validated empirically by the check on every table -g emits and every generated TOML file; the effect of #[serde(default)] (absent table/key = '
+         'Default) IS modelled (fill_config). clap: the options record is what the check typed, short/long/= spellings varied. kotlin/scala module_name is '
+         'never read by the back ends, so it is observable only through the TOML written by -g. The file system model has files only (no directories, '
+         'no `..` normalisation, parent of the -g target exists). Scala panics on an empty package and prints no package line for a dotless package: '
+         'the observation distinguishes only {empty, dotless, exact dotted value}. Uses its own result type (cres) because anyhow errors have no '
+         'counterpart in Model/Outcome.v.',
+    technique='Rocq proof (model = declarative specification for all inputs; structural recursion + fuelled-loop equivalence for discovery) + exhaustive matrix / random differential correspondence through the real binary',
+    design='§11 C20'),
+
 }
 NOT_YET = {}
 def main():
